@@ -122,6 +122,10 @@ G_C10_TierOrder(p, d, pods, dl(_), now, sa, dur) ==
 G_C10_ForceOnlyWithTgpAfterThreshold(p, d, tgpSet, now) == tgpSet /\ ForceEligible(p, d, now)
 ForceSig(p, d, tgpSet, now) == IF ~tgpSet THEN "no-termination-grace-period" ELSE IF d < 0 THEN "no-deadline"
                                ELSE "before-deadline-minus-grace"
+\* a pod that Karpenter must not evict because it cannot drain it (static, tolerating the taint) must not be deleted
+\* directly either; an active do-not-disrupt annotation does NOT protect against the deadline
+G_C10_DeleteOnlyDrainable(p) == ~p.toleratesDisruption /\ ~Static(p)
+DeleteSig(p) == IF Static(p) THEN "static-pod" ELSE "tolerates-disruption-taint"
 \* g: grace period of the delete call (-1 = not given: the pod's own)
 EffGrace(p, g) == IF g < 0 THEN p.tgps ELSE g
 G_C10_GraceAtLeastOne(p, g) == EffGrace(p, g) >= 1
